@@ -50,7 +50,8 @@ def _typed_units(main):
 
 ENGINES = {
     "e_static": {"dir": "e_static", "units": _static_units()},
-    "e_seg": {"dir": "e_seg", "units": _typed_units("e_seg.cpp")},
+    "e_seg": {"dir": "e_seg", "units": [("inst.cpp", {"VF_KEY": "long long", "VF_KEYID": "ll"}), ("inst.cpp", {"VF_KEY": "unsigned long long", "VF_KEYID": "ull"})] +
+              _typed_units("e_seg.cpp")},
     "e_mapped": {"dir": "e_mapped", "units": [("inst.cpp", {"VF_KEY": t, "VF_KEYID": i}) for t, i in [
         ("uint16_t", "u16"), ("int16_t", "i16"), ("uint32_t", "u32"), ("int32_t", "i32"), ("uint64_t", "u64"), ("int64_t", "i64")]] + [("e_mapped.cpp", {})]},
     "e_multidim": {"dir": "e_multidim", "units": [("inst.cpp", {"VF_D": d, "VF_T": t, "VF_ID": "d%s%s" % (d, i)}) for d in "234"
@@ -114,8 +115,8 @@ CHECKS = {
             "multi": [{"engine": "e_static", "prop": "C02"}, {"engine": "e_variants", "prop": "C08"}, {"engine": "e_variants", "prop": "C09"},
                       {"engine": "e_variants", "prop": "C10"}, {"engine": "e_mapped", "prop": "C11"}, {"engine": "e_mapped", "prop": "C12"},
                       {"engine": "e_multidim", "prop": "C13"}, {"engine": "e_multidim", "prop": "C14"}, {"engine": "e_dynamic", "prop": "C06"},
-                      {"engine": "e_dynamic", "prop": "C05"}, {"engine": "e_cif", "prop": "C18"}],
-            "rule": ("the generators of C02, C05, C06, C08-C14 and C18 in --mode mem (semantic mismatches ignored, AddressSanitizer is the oracle; build -O1 -g "
+                      {"engine": "e_dynamic", "prop": "C05"}, {"engine": "e_cif", "prop": "C18"}, {"engine": "e_copy", "prop": "C19"}],
+            "rule": ("the generators of C02, C05, C06, C08-C14, C18 and C19 (copy/move scripts) in --mode mem (semantic mismatches ignored, AddressSanitizer is the oracle; build -O1 -g "
                      "-fsanitize=address, detect_stack_use_after_return=1, leak detection off), every other case with a size hint <= 12 (n = 1, 2, 3 ...), "
                      "queries at lowest(), first-1, last+1, max-1, empty dynamic containers, iterators driven to end(), boxes reaching the last stored point; "
                      "plus every file of replays/regress/*. non-trivial: n <= 3 or data touching lowest()/max-1 or a chunked build or a query outside "
